@@ -6,7 +6,6 @@ checksum models).  Agreement of *executions* -- every program, every instruction
 stall probability / source-sink delay, i.e. the pipeline control (stalls, bypasses, squashes) -- is NOT decided.
 """
 import ast
-import copy
 
 from sa.astutil import norm
 from sa.errors import AnalysisError
@@ -183,16 +182,24 @@ def merge_paths(leaves):
     return out
 
 
+_HEADS = {'const', 'bv', 'R', 'mod', 'add', 'and', 'or', 'xor', 'eq', 'ne', 'sub', 'shl', 'shr', 'ite', 'M', 'pc', 'cat', 'bits',
+          'shlc', 'shrc', 'sext', 'xcelread', 'mngr2proc', 'dmemresp', 'xcelresp', 'msg', 'w', 'not', 'nothing', 'all', 'v'}
+
+
+def _is_bit(b):
+    return b == 0 or b == 1 or (isinstance(b, tuple) and len(b) == 2 and b[0] in ('i', 'm', 'w') and isinstance(b[1], int))
+
+
 def show(t, depth=0):
     """readable rendering of a normal-form value"""
-    if isinstance(t, tuple) and t and isinstance(t[0], str):
+    if isinstance(t, tuple) and t and isinstance(t[0], str) and t[0] in _HEADS:
         h = t[0]
         if h == 'const':
             return hex(t[1]) if t[1] > 9 else str(t[1])
         if h == 'bv':
             return 'inst{' + bits_str(t[1]) + '}'
         if h == 'R':
-            return 'R[' + bits_str(t[1]) + ']'
+            return 'R[inst{' + bits_str(t[1]) + '}]'
         if h == 'mod':
             return f"({show(t[2])} mod 2^{t[1]})"
         if h in ('add', 'and', 'or', 'xor', 'eq', 'ne', 'sub', 'shl', 'shr'):
@@ -202,7 +209,17 @@ def show(t, depth=0):
             return f"({show(t[1])} ? {show(t[2])} : {show(t[3])})"
         if h == 'M':
             return f"M[{show(t[1])}]"
+        if h == 'bits':
+            return f"{show(t[3])}[{t[1]}:{t[2]}]"
+        if h == 'cat':
+            return f"cat({show(t[1])}, {show(t[2])} :{t[3]} bits)"
+        if len(t) == 1:
+            return h
         return h + '(' + ', '.join(show(x) for x in t[1:]) + ')'
+    if isinstance(t, tuple) and t and all(_is_bit(b) for b in t) and len(t) > 2:
+        return 'inst{' + bits_str(t) + '}'
+    if isinstance(t, tuple) and len(t) == 2 and isinstance(t[1], int) and isinstance(t[0], tuple):
+        return show(t[0])
     if isinstance(t, tuple):
         return '(' + ', '.join(show(x) for x in t) + ')'
     return str(t)
@@ -585,7 +602,7 @@ def run_fl(repo, cube, ctx):
             it.run(blk.body)
         except U._Return:
             e['notes'].append('execute block returns early')
-    except Raised as r:
+    except Raised:
         e['illegal'] = 'raises'
     pc = Sym(('pc',), 32)
     if e['illegal'] is None:
@@ -678,14 +695,12 @@ def record_memreq(e, msg, ifc):
 
 # ---------------------------------------------------------------------------
 # CL processor: one instruction flows through fetch -> execute -> write-back -> next fetch
-_design_cache = {}
-
-
 def design(repo, rel, cls):
-    key = (id(repo), rel, cls)
-    if key not in _design_cache:
-        _design_cache[key] = Design(repo, rel, cls)
-    return _design_cache[key]
+    cache = repo.__dict__.setdefault('_c20_designs', {})      # per Repo object: safe with the self-test's overlays
+    key = (rel, cls)
+    if key not in cache:
+        cache[key] = Design(repo, rel, cls)
+    return cache[key]
 
 
 class CLModel(ProcModel):
@@ -856,10 +871,6 @@ def run_cl(repo, cube, ctx):
             e['npc'] = e['fetch'][-1][0]
     except Raised:
         e['illegal'] = 'raises'
-    for q, items in model.queues.items():
-        # everything the instruction put into an internal queue must have been consumed by a later stage,
-        # except the pc handed over by the *next* fetch
-        pass
     fin = finish(e)
     for role, slot in (('dmem.resp', 'dmem'), ('xcel.resp', 'xcel')):
         sent = len(e['load']) + len(e['mem']) if role == 'dmem.resp' else len(e['xr']) + len(e['xw'])
@@ -936,13 +947,10 @@ class RtlSetup:
         self.bypass_muxes = sorted(self.alias)
 
 
-_rtl_setup = {}
-
-
 def rtl_setup(repo):
-    if id(repo) not in _rtl_setup:
-        _rtl_setup[id(repo)] = RtlSetup(repo)
-    return _rtl_setup[id(repo)]
+    if '_c20_rtl' not in repo.__dict__:
+        repo.__dict__['_c20_rtl'] = RtlSetup(repo)
+    return repo.__dict__['_c20_rtl']
 
 
 def _bit(v, what):
@@ -1356,7 +1364,7 @@ def rule_isa_set(repo):
     _, _, flb = fl_block(repo)
     _, clm, _, _, execute, _ = cl_blocks(repo)
     sources = [
-        (repo.mod(ENC), '<module>', 'overview list of the ISA document', set(getattr(spec, 'listed', [])), False),
+        (ISA, 'document', 'overview list of the ISA document', set(getattr(spec, 'listed', [])), False),
         (enc, '<module>', 'rows of tinyrv0_encoding_table', {row[0] for row in rows}, True),
         (enc, 'TinyRV0Inst.name', 'names returned by TinyRV0Inst.name', {x for x in returns if x != '????'}, True),
         (repo.mod(FL), 'ProcFL.construct.up_ProcFL', 'execute branches of ProcFL', set(_compared_strings(flb)), True),
